@@ -86,7 +86,7 @@ theorem C07_strict_needed (orig : J) (kvs : List (String × J)) (u : String) (v 
     (hu : definedFor (.obj kvs) u = false)
     (hid : u ≠ "id") (hp : u ≠ "proof") (hc : u ≠ "@context") (ho : orig = .obj kvs)
     (hproof : (member orig "proof").isSome) :
-    expected orig (.obj (kvs ++ [(u, v)])) = ("acc", "rej") := by
+    expectedClaims orig (.obj (kvs ++ [(u, v)])) = ("acc", "rej") := by
   subst ho
   have hget : ∀ k, k ≠ u → member (.obj (kvs ++ [(u, v)])) k = member (.obj kvs) k := by
     intro k hk
@@ -103,7 +103,7 @@ theorem C07_strict_needed (orig : J) (kvs : List (String × J)) (u : String) (v 
     unfold ctxList; rw [hget "@context" (Ne.symm hc)]
   have hcs : ∀ p, ctxSame p (.obj kvs) (.obj (kvs ++ [(u, v)])) = true := by
     intro p; unfold ctxSame; rw [hcl, hget "@context" (Ne.symm hc)]; split <;> simp
-  unfold expected
+  unfold expectedClaims
   rw [hget "proof" (Ne.symm hp), hd]
   cases hpm : member (.obj kvs) "proof" with
   | none => simp [hpm] at hproof
@@ -119,8 +119,8 @@ theorem C07_strict_needed (orig : J) (kvs : List (String × J)) (u : String) (v 
 /-- an altered, removed or added DEFINED statement is refused -/
 theorem C07_claims_differ_rejected (orig mutated : J)
     (h : sameSet (docClaims (definedFor mutated) orig) (docClaims (definedFor mutated) mutated) = false) :
-    expected orig mutated = ("rej", "rej") ∨ expected orig mutated = ("noproof", "noproof") := by
-  unfold expected
+    expectedClaims orig mutated = ("rej", "rej") ∨ expectedClaims orig mutated = ("noproof", "noproof") := by
+  unfold expectedClaims
   cases member mutated "proof" with
   | none => right; rfl
   | some p => left; simp [h]
@@ -128,16 +128,16 @@ theorem C07_claims_differ_rejected (orig mutated : J)
 /-- any change of the proof (created, verificationMethod, proofPurpose, domain, challenge, the signature value) is refused -/
 theorem C07_proof_options_covered (orig mutated p : J) (hm : member mutated "proof" = some p)
     (h : ((member orig "proof").map J.render == some (J.render p)) = false) :
-    expected orig mutated = ("rej", "rej") := by
-  unfold expected
+    expectedClaims orig mutated = ("rej", "rej") := by
+  unfold expectedClaims
   simp [hm, h]
 
 /-- with the `proofValue` representation the context list itself is covered: any change of it is refused -/
 theorem C07_context_list_covered (orig mutated p : J) (hm : member mutated "proof" = some p)
     (hrepr : detachedJws p = false)
     (h : ((member orig "@context").map J.render == (member mutated "@context").map J.render) = false) :
-    expected orig mutated = ("rej", "rej") := by
-  unfold expected
+    expectedClaims orig mutated = ("rej", "rej") := by
+  unfold expectedClaims
   simp [hm, ctxSame, hrepr, h]
 
 /-- with the detached-JWS representation a context that defines only proof vocabulary can go without changing a signed
@@ -147,14 +147,29 @@ theorem C07_detached_proof_context (orig mutated p : J) (hm : member mutated "pr
     (hproof : ((member orig "proof").map J.render == some (J.render p)) = true)
     (hctx : ctxSame p orig mutated = true) (hlost : lostProofCtx orig mutated = true)
     (hcl : sameSet (docClaims (definedFor mutated) orig) (docClaims (definedFor mutated) mutated) = true) :
-    expected orig mutated = ("acc", "rej") := by
-  unfold expected
+    expectedClaims orig mutated = ("acc", "rej") := by
+  unfold expectedClaims
   simp [hm, hproof, hctx, hlost, hcl]
 
 /-- without a proof nothing is "verified" -/
 theorem C07_no_proof (orig mutated : J) (hm : member mutated "proof" = none) :
-    expected orig mutated = ("noproof", "noproof") := by
-  unfold expected; simp [hm]
+    expectedClaims orig mutated = ("noproof", "noproof") := by
+  unfold expectedClaims; simp [hm]
+
+/-- the claims-level theorems above are about `expectedClaims`; they transfer verbatim to the verdict the driver compares
+    with the code for every document without two members matching one known member … -/
+theorem expected_of_no_case_variant (orig mutated : J) (h : hasCaseVariant mutated = false) :
+    expected orig mutated = expectedClaims orig mutated := by
+  unfold expected; simp [h]
+
+/-- … and a document WITH such a pair ("Issuer" next to "issuer") is refused whatever it says (C07-F3: before the repair
+    it verified and the Go value reported the other issuer) -/
+theorem C07_case_variant_refused (orig mutated : J) (h : hasCaseVariant mutated = true) :
+    expected orig mutated = ("rej", "rej") := by
+  unfold expected; simp [h]
+
+example : hasCaseVariant (.obj [("issuer", .str "did:a"), ("Issuer", .str "did:b")]) = true := by decide
+example : hasCaseVariant (.obj [("issuer", .str "did:a"), ("name", .str "x")]) = false := by decide
 
 namespace Strict
 
